@@ -215,30 +215,58 @@ def handler_type_names(h: ast.ExceptHandler):
     return [ast.unparse(e) for e in elts]
 
 
-def all_paths_end_in(stmts, pred):
-    """Every syntactic path through the statement list ends in a statement satisfying pred
-    (Raise / Return), considering if/else, try, with; loops are treated as may-skip."""
-    if not stmts:
-        return False
-    for i, s in enumerate(stmts):
+def _escapes(stmts, pred):
+    """Ways control can leave the statement list *without* having executed a statement satisfying
+    pred: subset of {'fall', 'return', 'raise', 'break', 'continue'}."""
+    out = set()
+    for s in stmts:
         if pred(s):
-            return True
-        if isinstance(s, (ast.Return, ast.Raise)):
-            return False
+            return out
+        if isinstance(s, ast.Return):
+            return out | {"return"}
+        if isinstance(s, ast.Raise):
+            return out | {"raise"}
+        if isinstance(s, ast.Break):
+            return out | {"break"}
+        if isinstance(s, ast.Continue):
+            return out | {"continue"}
         if isinstance(s, ast.If):
-            if s.orelse and all_paths_end_in(s.body, pred) and all_paths_end_in(s.orelse, pred):
-                return True
-        elif isinstance(s, ast.With):
-            if all_paths_end_in(s.body, pred):
-                return True
+            a = _escapes(s.body, pred)
+            b = _escapes(s.orelse, pred) if s.orelse else {"fall"}
+            both = a | b
+            out |= both - {"fall"}
+            if "fall" not in both:
+                return out
+        elif isinstance(s, (ast.With, ast.AsyncWith)):
+            a = _escapes(s.body, pred)
+            out |= a - {"fall"}
+            if "fall" not in a:
+                return out
+        elif isinstance(s, (ast.For, ast.While, ast.AsyncFor)):
+            a = _escapes(s.body, pred)
+            out |= a - {"fall", "break", "continue"}
+            # a loop may run zero times: falls through
         elif isinstance(s, ast.Try):
-            body_ok = all_paths_end_in(s.body + s.orelse, pred) if not s.finalbody or True else False
-            handlers_ok = all(all_paths_end_in(h.body, pred) for h in s.handlers)
-            if s.finalbody and all_paths_end_in(s.finalbody, pred):
-                return True
-            if body_ok and handlers_ok:
-                return True
-    return False
+            a = _escapes(s.body + s.orelse, pred)
+            hs = set()
+            for h in s.handlers:
+                hs |= _escapes(h.body, pred)
+            allw = a | hs
+            if s.finalbody:
+                f = _escapes(s.finalbody, pred)
+                if "fall" not in f:
+                    out |= f
+                    return out
+                out |= f - {"fall"}
+            out |= allw - {"fall"}
+            if "fall" not in allw:
+                return out
+    return out | {"fall"}
+
+
+def all_paths_end_in(stmts, pred):
+    """Every path through the statement list executes a statement satisfying pred before leaving it."""
+    return not _escapes(stmts, pred)
 
 
 def func_callers(model: Model, name, modules=None):
